@@ -98,7 +98,7 @@ class CRun:
             out['voi'] = conv(VI.in_dll(self.lib, 'VOI_INFO'))
         return out
 
-    def run(self, voi=0.0, nla=None, ext=None, state_override=None, stages=('initialiseVariables', 'computeComputedConstants', 'computeRates', 'computeVariables')):
+    def run(self, voi=0.0, nla=None, ext=None, state_override=None, stages=('initialiseVariables', 'computeComputedConstants', 'computeRates', 'computeVariables'), second=None):
         """nla(objfn(u_list)->f_list, u_list, n, arrays) -> new u_list ; ext(voi, states, rates, variables, index) -> float"""
         D = ctypes.c_double
         states = (D * max(1, self.nstate))(*([math.nan] * max(1, self.nstate)))
@@ -126,9 +126,9 @@ class CRun:
             else:
                 extcb = EXTCB1(lambda va, i: float(ext(None, arrays, int(i))))
             keep.append(extcb)
-        for name in stages:
+        def call(name):
             if name not in self.sig:
-                continue
+                return
             fn = getattr(self.lib, name)
             fn.restype = None
             args = []
@@ -140,10 +140,21 @@ class CRun:
                 elif p == 'externalVariable':
                     args.append(extcb)
             fn(*args)
+        for name in stages:
+            call(name)
             if name == 'initialiseVariables' and state_override:
                 for i, v in state_override.items():
                     states[i] = v
-        return {'states': list(states)[:self.nstate], 'rates': list(rates)[:self.nstate], 'variables': list(variables)[:self.nvar]}
+        out = {'states': list(states)[:self.nstate], 'rates': list(rates)[:self.nstate], 'variables': list(variables)[:self.nvar]}
+        if second:
+            # what an integrator does between two outputs: the states move, then ONLY computeVariables is called
+            if second.get('before'):
+                second['before']()
+            for i, v in second['states'].items():
+                states[i] = v
+            call('computeVariables')
+            out['second'] = {'states': list(states)[:self.nstate], 'rates': list(rates)[:self.nstate], 'variables': list(variables)[:self.nvar]}
+        return out
 
 
 class PyRun:
@@ -174,7 +185,7 @@ class PyRun:
             out['voi'] = conv(self.ns.get('VOI_INFO', {}))
         return out
 
-    def run(self, voi=0.0, nla=None, ext=None, state_override=None, stages=('initialise_variables', 'compute_computed_constants', 'compute_rates', 'compute_variables')):
+    def run(self, voi=0.0, nla=None, ext=None, state_override=None, stages=('initialise_variables', 'compute_computed_constants', 'compute_rates', 'compute_variables'), second=None):
         states = [math.nan] * self.nstate
         rates = [math.nan] * self.nstate
         variables = [math.nan] * self.nvar
@@ -189,10 +200,10 @@ class PyRun:
             self._nla = cb
         else:
             self._nla = None
-        for name in stages:
+        def call(name):
             fn = self.ns.get(name)
             if fn is None:
-                continue
+                return
             args = []
             for p in inspect.signature(fn).parameters:
                 if p == 'voi':
@@ -205,9 +216,20 @@ class PyRun:
                     else:
                         args.append(lambda va, i: ext(None, arrays, i))
             fn(*args)
+        for name in stages:
+            call(name)
             if name == 'initialise_variables' and state_override:
                 for i, v in state_override.items():
                     states[i] = v
+        if second:
+            first = {k: list(v) for k, v in arrays.items()}
+            if second.get('before'):
+                second['before']()
+            for i, v in second['states'].items():
+                states[i] = v
+            call('compute_variables')
+            first['second'] = {k: list(v) for k, v in arrays.items()}
+            return first
         return arrays
 
 
